@@ -94,6 +94,15 @@ def resolve_attr(ex, mod, attr):
         return ex.fm.call("PI") if ex.fm.name == "U" else z3.RealVal("3.14159265358979323846264338327950288")
     if full == "numpy.nan":
         return NaNV()
+    if full in ("numpy.inf", "math.inf", "numpy.Inf"):
+        # +infinity: a distinguished constant about which only isinf(.) is known (over-approximation: comparisons with it are
+        # not decided by the model, both outcomes are explored)
+        ex.ctx.assumed.add("numpy.inf: a distinguished constant with isinf(.) only (comparisons against it are not decided)")
+        c = z3.Const("np!inf", ex.fm.sort) if ex.fm.name == "U" else z3.Real("np!inf")
+        ax = ex.fm.isinf(c)
+        if not any(a.eq(ax) for a in ex.ctx.axioms):
+            ex.ctx.add_axiom(ax)
+        return c
     if mod.name == "numpy" and attr in DTYPE_ALIASES:
         return DtypeRef(DTYPE_ALIASES[attr])
     return FnRef(full)
